@@ -36,7 +36,30 @@ type c17DB struct {
 // c17CaseVariant spells a database name in another letter case - one that
 // names the same database: the same lower-case form (for "maſs" the upper-case
 // form MASS is another database's name, so it is not used).
+// c17Key: the database a written name stands for - quotes off, lower case.
+func c17Key(written string) string {
+	if len(written) >= 2 && written[0] == '"' && written[len(written)-1] == '"' {
+		written = written[1 : len(written)-1]
+	}
+	return strings.ToLower(written)
+}
+
+// c17Spell writes a database name as SQL: in double quotes when it is not a
+// plain identifier (blanks, a leading dot).
+func c17Spell(name string) string {
+	if strings.HasPrefix(name, `"`) {
+		return name
+	}
+	if strings.ContainsAny(name, " .") {
+		return `"` + name + `"`
+	}
+	return name
+}
+
 func c17CaseVariant(r *core.Rand, nm string) string {
+	if len(nm) >= 2 && nm[0] == '"' {
+		return `"` + c17CaseVariant(r, nm[1:len(nm)-1]) + `"`
+	}
 	rs := []rune(nm)
 	title := strings.ToUpper(string(rs[:1])) + strings.ToLower(string(rs[1:]))
 	cands := []string{strings.ToUpper(nm), title}
@@ -52,7 +75,7 @@ func c17CaseVariant(r *core.Rand, nm string) string {
 }
 
 func checkC17(c *core.Ctx) []core.Floor {
-	c.Rule = "scripts of 15-60 steps over 2-4 databases (names of letters, digits and underscores, also with a leading underscore, with letters outside ASCII, and pairs of names that differ only by a long s / final sigma; one script in 48 opens by creating 100-1030 further databases and lists them before and after a restart) in one session per process lifetime, REAL 100 ms flush timer: CREATE DATABASE (new / existing / other letter case), USE (another / the current one / a missing one / other letter case), SHOW DATABASES, DDL and DML as SQL text through Session.ExecQuery, pauses of 0 / 130 / 350 ms, and restarts (clean close, os.Exit without close, SIGKILL; abrupt ones after a pause of > 2 ticks) after which a new process runs InitStorage and continues the script. Oracle: model of databases; the current database changes only on a successful USE; after every successful USE every table of the selected database is read and compared; at every restart boundary the data directory (process gone, hence quiescent) is copied and a separate process recovers the copy and reads every table of every database; SHOW DATABASES must equal the created names (lower-cased set). Distinct = script; non-trivial = the script re-selected the current database or switched databases with unflushed work, then paused >= 1 tick."
+	c.Rule = "scripts of 15-60 steps over 2-4 databases (names of letters, digits and underscores, also with a leading underscore, with letters outside ASCII, pairs of names that differ only by a long s / final sigma, and quoted names with a blank inside or at the end or a leading dot; one script in 48 opens by creating 100-1030 further databases and lists them before and after a restart) in one session per process lifetime, REAL 100 ms flush timer: CREATE DATABASE (new / existing / other letter case), USE (another / the current one / a missing one / other letter case), SHOW DATABASES, DDL and DML as SQL text through Session.ExecQuery, pauses of 0 / 130 / 350 ms, and restarts (clean close, os.Exit without close, SIGKILL; abrupt ones after a pause of > 2 ticks) after which a new process runs InitStorage and continues the script. Oracle: model of databases; the current database changes only on a successful USE; after every successful USE every table of the selected database is read and compared; at every restart boundary the data directory (process gone, hence quiescent) is copied and a separate process recovers the copy and reads every table of every database; SHOW DATABASES must equal the created names (lower-cased set). Distinct = script; non-trivial = the script re-selected the current database or switched databases with unflushed work, then paused >= 1 tick."
 	c.Assume = []string{"database names are compared case-insensitively (directories are lower-cased)", "abrupt restarts follow a pause of more than two ticks and a look at the cache (no dirty page left), so that a kill never lands inside a page flush (that situation is C04's)"}
 	drv := mustDriver(c, false)
 	n := 96
@@ -74,7 +97,9 @@ func runC17(c *core.Ctx, drv string, idx int) {
 		// letters outside ASCII, with upper / lower case forms; two names that a
 		// Unicode case FOLDING takes for the same although their lower-case
 		// forms (which name the directories) differ: the long s and the final sigma
-		{"Übung", "ärger", "Ωmega", "x9"}, {"mass", "maſs", "Übung", "d2"}, {"ΟΔΟΣ", "οδος", "οδοσ", "q"}}[r.Intn(6)][:r.Range(2, 4)]
+		{"Übung", "ärger", "Ωmega", "x9"}, {"mass", "maſs", "Übung", "d2"}, {"ΟΔΟΣ", "οδος", "οδοσ", "q"},
+		// names that need quotes: a blank inside or at the end (next to the same name without it), a leading dot
+		{`"shop "`, "shop", `"my db"`, "x9"}, {`".hidden"`, `"shop  "`, `"shop "`, "shop"}}[r.Intn(8)][:r.Range(2, 4)]
 	// ---- generate the script against the model ----
 	dbs := map[string]*c17DB{}
 	cur := ""
@@ -90,12 +115,12 @@ func runC17(c *core.Ctx, drv string, idx int) {
 		// scripted opening: a database with more than 7 tables (two-level
 		// catalog), a table whose root has moved, then away and back without
 		// a restart and further DML on that table
-		a, b := strings.ToLower(names[0]), strings.ToLower(names[1])
+		a, b := c17Key(names[0]), c17Key(names[1])
 		for _, nm := range []string{a, b} {
-			steps = append(steps, c17Step{kind: "create_db", name: nm})
+			steps = append(steps, c17Step{kind: "create_db", name: c17Spell(nm)})
 			dbs[nm] = &c17DB{m: model.NewDB(), grave: model.Graveyard{}, h: gen.NewHist(core.NewRand(r.U64()), true)}
 		}
-		steps = append(steps, c17Step{kind: "use", name: a, useCls: "other"})
+		steps = append(steps, c17Step{kind: "use", name: c17Spell(a), useCls: "other"})
 		cur = a
 		d := dbs[a]
 		d.h.MaxTables = 10
@@ -117,7 +142,7 @@ func runC17(c *core.Ctx, drv string, idx int) {
 		if r.Bool() {
 			steps = append(steps, c17Step{kind: "pause", ms: 130})
 		}
-		steps = append(steps, c17Step{kind: "use", name: b, useCls: "other"}, c17Step{kind: "use", name: a, useCls: "other"})
+		steps = append(steps, c17Step{kind: "use", name: c17Spell(b), useCls: "other"}, c17Step{kind: "use", name: c17Spell(a), useCls: "other"})
 		del := d.h.Delete(t)
 		if f, _, _, err := d.h.DB.Apply(del); f == "" && err == nil {
 			push(del)
@@ -128,7 +153,7 @@ func runC17(c *core.Ctx, drv string, idx int) {
 				push(ins)
 			}
 		}
-		steps = append(steps, c17Step{kind: "use", name: b, useCls: "other"}, c17Step{kind: "use", name: a, useCls: "other"})
+		steps = append(steps, c17Step{kind: "use", name: c17Spell(b), useCls: "other"}, c17Step{kind: "use", name: c17Spell(a), useCls: "other"})
 		nsteps += len(steps)
 		c.Count("scripted_two_level_catalog_openings", 1)
 	}
@@ -160,17 +185,17 @@ func runC17(c *core.Ctx, drv string, idx int) {
 		switch {
 		case x < 2:
 			nm := names[r.Intn(len(names))]
-			if _, ok := dbs[strings.ToLower(nm)]; ok && r.Bool() {
+			if _, ok := dbs[c17Key(nm)]; ok && r.Bool() {
 				nm = c17CaseVariant(r, nm)
 			}
 			steps = append(steps, c17Step{kind: "create_db", name: nm})
-			if _, ok := dbs[strings.ToLower(nm)]; !ok {
-				dbs[strings.ToLower(nm)] = &c17DB{m: model.NewDB(), grave: model.Graveyard{}}
-				dbs[strings.ToLower(nm)].h = gen.NewHist(core.NewRand(r.U64()), true)
+			if _, ok := dbs[c17Key(nm)]; !ok {
+				dbs[c17Key(nm)] = &c17DB{m: model.NewDB(), grave: model.Graveyard{}}
+				dbs[c17Key(nm)].h = gen.NewHist(core.NewRand(r.U64()), true)
 				if r.Bool() {
 					// many tables: the catalog of this database becomes a
 					// two-level tree
-					dbs[strings.ToLower(nm)].h.MaxTables = r.Range(8, 10)
+					dbs[c17Key(nm)].h.MaxTables = r.Range(8, 10)
 				}
 			}
 		case x < 6:
@@ -184,17 +209,17 @@ func runC17(c *core.Ctx, drv string, idx int) {
 			case y < 2 || len(existing) == 0:
 				st.name, st.useCls = "nosuch"+fmt.Sprint(r.Intn(3)), "missing"
 			case y < 5 && cur != "":
-				st.name, st.useCls = cur, "same"
+				st.name, st.useCls = c17Spell(cur), "same"
 			case y < 6:
-				st.name, st.useCls = c17CaseVariant(r, existing[r.Intn(len(existing))]), "othercase"
+				st.name, st.useCls = c17CaseVariant(r, c17Spell(existing[r.Intn(len(existing))])), "othercase"
 			default:
-				st.name, st.useCls = existing[r.Intn(len(existing))], "other"
+				st.name, st.useCls = c17Spell(existing[r.Intn(len(existing))]), "other"
 			}
 			if st.useCls != "missing" {
-				if strings.ToLower(st.name) == cur && st.useCls != "same" {
+				if c17Key(st.name) == cur && st.useCls != "same" {
 					st.useCls = "same"
 				}
-				cur = strings.ToLower(st.name)
+				cur = c17Key(st.name)
 			}
 			steps = append(steps, st)
 		case x < 7:
@@ -300,7 +325,7 @@ func runC17(c *core.Ctx, drv string, idx int) {
 				}
 			case "create_db":
 				history = append(history, "CREATE DATABASE "+st.name)
-				key := strings.ToLower(st.name)
+				key := c17Key(st.name)
 				if created[key] {
 					c.Count("create_existing", 1)
 					if res.Err == "" {
@@ -317,7 +342,7 @@ func runC17(c *core.Ctx, drv string, idx int) {
 				}
 			case "use":
 				history = append(history, "USE "+st.name)
-				key := strings.ToLower(st.name)
+				key := c17Key(st.name)
 				c.Count("use_"+st.useCls, 1)
 				if !created[key] {
 					if res.Err == "" {
@@ -477,7 +502,7 @@ func runC17(c *core.Ctx, drv string, idx int) {
 		}
 		sort.Strings(keys)
 		for _, k := range keys {
-			v.sql("USE " + k)
+			v.sql("USE " + c17Spell(k))
 			v.k("dump")
 			vmeta = append(vmeta, k)
 		}
